@@ -17,14 +17,14 @@ theorem toEnv_envP (d : Defs) : EnvP d.toEnv := by
   simp [Defs.toEnv, fnIdent, fnZip, fnFirst]
 
 /-- the node-creating instructions of the fragment (top level): static instructions over top-level operands, and
-`perKey none fam x` over a variable holding a map, for a template of the fragment whose outer nodes already exist -/
+`perKey cut fam x` (`cut` absent or the default `.eq`) over a variable holding a map, for a template of the fragment whose outer nodes already exist -/
 def PInstrOK (env : Env) (s : State) : Instr → Prop
   | .const _ => True
   | .var v => ∀ m, v = .map m → IncrVerif.AMap.Sorted m
   | .map f args => f < fnZip ∧ (∀ vals, env.fnEff f vals = []) ∧ ∀ a, a ∈ args → QR.OpndOK a
   | .fold f _ cs => f < xBase ∧ ∀ a, a ∈ cs → QR.OpndOK a
   | .zip a b => QR.OpndOK a ∧ QR.OpndOK b
-  | .perKey cut fam x => cut = none ∧ TemplOK env (env.perKey fam) ∧
+  | .perKey cut fam x => (cut = none ∨ cut = some .eq) ∧ TemplOK env (env.perKey fam) ∧
       (∃ k o c vc m, x = .outer k ∧ s.top[k]? = some o ∧ (s.nodeD o).kind = .var c ∧ s.vars[c]? = some vc ∧
         vc.value = .map m ∧ IncrVerif.AMap.Sorted m ∧
         (∀ w, (s.nodeD o).value = some w → ∃ m2, w = .map m2 ∧ IncrVerif.AMap.Sorted m2 ∧ keysSub m2 m)) ∧
